@@ -458,7 +458,9 @@ class SolveUnc(_BaseODE):
                     tmp = np.eye(self.ksize) + Bp * self.bo
                     self.pc.alpha = la.solve(tmp.T, self.bo.T).T
             else:
-                self.pc = self.get_su_eig(h is not None)
+                # complex conjugate eigenvalues are redundant (and one of
+                # each pair is deleted) only for real systems
+                self.pc = self.get_su_eig(h is not None and self.systype is float)
         else:
             self.pc = None
         self._mk_slices()  # dorbel=True)
@@ -1855,7 +1857,7 @@ class SolveUnc(_BaseODE):
 
     def _delconj(self):
         pc = self.pc
-        if 2 * pc.ur_inv_v.shape[1] == pc.ur_d.shape[1]:
+        if self.systype is float and 2 * pc.ur_inv_v.shape[1] == pc.ur_d.shape[1]:
             # ur_inv = np.hstack((pc.ur_inv_v, pc.ur_inv_d))
             lam, ur, ur_inv, _ = delconj(pc.lam, pc.ur, pc.ur_inv, [])
             if self.h:
